@@ -33,22 +33,22 @@ theorem decrypt_until_key_check (P : Prims) (L : P.Laws) (c : Config) (t : Tape)
     have := parseOuterHeader_build c t l H (sha ++ mac ++ stream)
     rw [hH] at this
     simpa [List.append_assoc] using this
-  have s1 : slice "decrypt_kdbx4:index" (header ++ sha ++ mac ++ stream) 0 header.length = .ok header := by
-    have := slice_mid "decrypt_kdbx4:index" [] header (sha ++ mac ++ stream)
+  have s1 : sliceE (header ++ sha ++ mac ++ stream) 0 header.length = .ok header := by
+    have := sliceE_mid [] header (sha ++ mac ++ stream)
     simpa [List.append_assoc] using this
-  have s2 : slice "decrypt_kdbx4:index" (header ++ sha ++ mac ++ stream) header.length (header.length + 32) = .ok sha := by
-    have := slice_mid "decrypt_kdbx4:index" header sha (mac ++ stream)
+  have s2 : sliceE (header ++ sha ++ mac ++ stream) header.length (header.length + 32) = .ok sha := by
+    have := sliceE_mid header sha (mac ++ stream)
     rw [hshaL] at this
     simpa [List.append_assoc] using this
-  have s3 : slice "decrypt_kdbx4:index" (header ++ sha ++ mac ++ stream) (header.length + 32) (header.length + 64) = .ok mac := by
-    have := slice_mid "decrypt_kdbx4:index" (header ++ sha) mac stream
+  have s3 : sliceE (header ++ sha ++ mac ++ stream) (header.length + 32) (header.length + 64) = .ok mac := by
+    have := sliceE_mid (header ++ sha) mac stream
     simp only [List.length_append, hshaL, hmacL] at this
     have e : header.length + 32 + 32 = header.length + 64 := by omega
     rw [e] at this
     exact this
-  have s4 : slice "decrypt_kdbx4:index" (header ++ sha ++ mac ++ stream) (header.length + 64)
+  have s4 : sliceE (header ++ sha ++ mac ++ stream) (header.length + 64)
       (header ++ sha ++ mac ++ stream).length = .ok stream := by
-    unfold slice
+    unfold sliceE
     have : header.length + 64 ≤ (header ++ sha ++ mac ++ stream).length
         ∧ (header ++ sha ++ mac ++ stream).length ≤ (header ++ sha ++ mac ++ stream).length := by
       simp only [List.length_append, hshaL, hmacL]; omega
